@@ -54,15 +54,19 @@ type procSpec struct {
 }
 
 type scenario struct {
-	Name     string
-	Init     string // empty one two three four
-	Cfg      reftable.Config
-	Procs    []procSpec
-	Preempt  int // -1 unbounded
-	Crashes  int
-	Faults   int // injected I/O faults per execution (EIO on one filesystem call)
-	Why      string
-	InitAuto bool
+	Name    string
+	Init    string // empty one two three four
+	Cfg     reftable.Config
+	Procs   []procSpec
+	Preempt int // -1 unbounded
+	Crashes int
+	Faults  int // injected I/O faults per execution (EIO on one filesystem call)
+	// FaultEnum: process 0's program is run once for EVERY filesystem call it makes (reads and writes
+	// included), with that call failing with EIO; faultAt is the ordinal of the current run
+	FaultEnum bool
+	faultAt   int
+	Why       string
+	InitAuto  bool
 	// MixedHash: handles are opened with different hash ids (the open-on-clone check would need to guess one)
 	MixedHash bool
 }
@@ -91,7 +95,7 @@ func (sc *scenario) build(prop string) (*mc.Scenario, error) {
 		switch prop {
 		case "C04":
 			ms.ref = monitor.NewRefinement(prop, sc.Cfg, m0.Clone())
-			ms.ref.Relaxed = sc.Faults > 0
+			ms.ref.Relaxed = sc.Faults > 0 || sc.FaultEnum
 			w.Monitors = append(w.Monitors, ms.ref)
 		case "C05":
 			li := &monitor.ListIntegrity{Prop: prop, HashID: stk.HashName(sc.Cfg), Cfg: sc.Cfg, CheckOpen: true}
@@ -129,6 +133,10 @@ func (sc *scenario) build(prop string) (*mc.Scenario, error) {
 				if err != nil {
 					w.HarnessErr = fmt.Errorf("pre-opening handle of p%d: %v", p.ID, err)
 				}
+			}
+			p.OpCount = 0
+			if sc.FaultEnum && p.ID == 0 {
+				p.FaultAt = sc.faultAt
 			}
 		}
 		w.Atomic = false
@@ -239,7 +247,7 @@ func (sc *scenario) call(w *mc.World, ms *mons, ps procSpec, s step, prop string
 			err := st.CompactAll(s.Expiry)
 			if ms.ref != nil {
 				ms.ref.SetExpiry(p.ID, nil)
-				if err != nil && err != reftable.ErrLockFailure && sc.Faults == 0 {
+				if err != nil && err != reftable.ErrLockFailure && sc.Faults == 0 && !sc.FaultEnum {
 					w.Violate(prop, "ack:unexpected-error@CompactAll:"+errClass(err.Error()), fmt.Sprintf("p%d: CompactAll failed with %q; without I/O faults only lock contention may fail it", p.ID, err))
 				}
 			}
@@ -249,7 +257,7 @@ func (sc *scenario) call(w *mc.World, ms *mons, ps procSpec, s step, prop string
 				return "skip"
 			}
 			ok, err := st.VerifCompactRange(s.I, s.J, nil)
-			if ms.ref != nil && err != nil && err != reftable.ErrLockFailure && sc.Faults == 0 {
+			if ms.ref != nil && err != nil && err != reftable.ErrLockFailure && sc.Faults == 0 && !sc.FaultEnum {
 				w.Violate(prop, "ack:unexpected-error@compactRange:"+errClass(err.Error()), fmt.Sprintf("p%d: compactRange failed with %q; without I/O faults only lock contention may fail it", p.ID, err))
 			}
 			return fmt.Sprintf("%v/%s", ok, hx.ErrString(err))
@@ -279,7 +287,11 @@ func (sc *scenario) call(w *mc.World, ms *mons, ps procSpec, s step, prop string
 				return res
 			}
 			// a handle whose open/Add/reload reported failure still has to read consistently
+			// the observation itself is exempt from injected faults and does not count as program calls
+			savedAt, savedCount := p.FaultAt, p.OpCount
+			p.FaultAt = 0
 			refs, logs, err := readAllGuard(st, hs)
+			p.FaultAt, p.OpCount = savedAt, savedCount
 			names := st.VerifNames()
 			view := hx.Joined(refs, logs)
 			ms.snap.Observed(w, p.ID, lbl+"="+resClass(res), names, view, err)
